@@ -65,8 +65,10 @@ ASSUMPTIONS = ['EnvOK: a leaf flagged is_linear is additive and homogeneous for 
                'points where a FunctionalQuotient divisor vanishes, `A / 0`, `(f/g) * 0` with '
                'g(0) = 0 and float overflow are outside the statements (Lean x/0 = 0); such cases '
                'are executed and counted under skip/…, not compared',
-               'in-place evaluation: only the operand order of the out= branches is modelled '
-               '(runIn); buffers/temporaries/aliasing are C03/C10 and only tested here',
+               'in-place evaluation: the out= branches are the EXTRACTED statement lists (Gen '
+               'inplaceOf, interpreted by runInBy with unspecified contents of `out` and of fresh '
+               'temporaries; theorem C04.inplace_programs_sound); registers are distinct values: '
+               'ALIASING of x / out / cached temporaries is C03/C10 and only tested here',
                'floating-point rounding is outside the model; values are on a dyadic grid and '
                'compared exactly when every intermediate value has <= 45 significant bits, '
                'otherwise with relative tolerance 1e-9',
@@ -1674,6 +1676,21 @@ def process(ctx, cases, pool, spaces, pool_ids, count=True):
                         ctx.disagree(desc, '{} {}'.format(name, showv(got)),
                                      '{} {}'.format(name, showv(mv)))
                         break
+                # the in-place branch as EXTRACTED (statement lists interpreted by runInBy, with
+                # junk in `out` and in the temporaries) against the real in-place call
+                got = real.get('inp')
+                if not (got is None or got == 'undefined' or None in got or
+                        real.get('ref') == 'undefined'):
+                    root = (real.get('tree') or '').split('(')[0]
+                    if not same(got, parse_cl(f['inpx']), ex):
+                        ctx.disagree(desc, 'in-place value of the real object {}'.format(showv(got)),
+                                     'extracted in-place program (runInBy) {}'.format(
+                                         showv(parse_cl(f['inpx']))), stream='inplace-prog')
+                    elif count and root and not root.startswith('L'):
+                        ctx.hit('inplace-prog/' + root)
+                if f['inpx'] != f['val'] and 'quot' not in c['forms']:
+                    ctx.disagree(desc, 'model run ' + f['val'], 'model runInBy ' + f['inpx'],
+                                 stream='inplace-prog')
                 if f['den'] != f['val']:
                     ctx.disagree(desc, 'model run ' + f['val'], 'model den ' + f['den'])
                 if isinstance(real.get('ref'), list):
@@ -1990,7 +2007,11 @@ MODEL_BRANCHES = ['class/' + n for n in (
                           'mixed/well-typed', 'stratum/ownership', 'stratum/history',
                           'stream/protocol', 'stream/leafclass', 'leafclass/all', 'leafclass/real',
                           'leafclass/none', 'leafclass/real-not-complex-homogeneous',
-                          'leafclass/none-not-additive'] + ['leafkind/' + k for k in (
+                          'leafclass/none-not-additive'] + ['inplace-prog/' + k for k in (
+                              'OperatorSum', 'OperatorVectorSum', 'OperatorComp',
+                              'OperatorPointwiseProduct', 'OperatorLeftScalarMult',
+                              'OperatorRightScalarMult', 'OperatorLeftVectorMult',
+                              'OperatorRightVectorMult', 'FunctionalLeftVectorMult')] + ['leafkind/' + k for k in (
                               'mat', 'scale', 'ident', 'pow', 'pow2', 'shift', 'shiftsq', 'constf',
                               'zerof', 'inner', 'linf', 'l2sq', 'repart', 'impart', 'scalef', 'powf')]
 
